@@ -36,6 +36,7 @@ func init() {
 		Real:           []string{"AuthorizedServersHandler GET/POST incl. forwarding to peers", "EquipmentMigrateHandler", "sync handler", "client sync round: parser, merge, migration adoption, persistence; client start-up load"},
 		Stub:           []string{"rogue server (harness, holding a configured server's key)", "TCP/HTTP (simulated fabric)"},
 		RequiredProbes: []string{"c17.srv.ban", "c17.srv.unban-attempt", "c17.srv.changed-ports", "c17.srv.forwarded", "c17.cli.ban-learned", "c17.cli.migration-adopted", "c17.cli.forged-order", "c17.cli.restart", "c17.cli.unban-replay"},
+		RequiredSites:  []string{"srvauth.between", "csync.premerge", "csync.postmerge"},
 	})
 }
 
@@ -400,6 +401,13 @@ func runC17(m *Sim) {
 				bansLearned++
 			}
 			compare("round")
+			nb := 0
+			for _, e := range model.servers {
+				if e.Banned {
+					nb++
+				}
+			}
+			m.NoteState(RoleOf(model.gca), model.id, len(model.servers), nb)
 		} else {
 			compareState("failed-round")
 		}
